@@ -29,6 +29,8 @@ class GenOpts:
         self.faults = False          # C07
         self.local_data = True
         self.hist_targets = True
+        self.nested_history = False
+        self.loose = False           # C02/C19: target lists the validator has to judge
         self.__dict__.update(kw)
 
 
@@ -188,11 +190,22 @@ def charts(draw, o=None, datamodel='lua'):
 
     # history pseudo states
     hist_ids = []
+    hist_parents, deep_hist_parents = set(), set()
+    excluded = [0]
     if o.history:
         for s in list(proper):
             if (s.is_compound() or s.kind == 'parallel') and weighted(draw, [(0, 3), (1, 2)]) == 1:
                 h = State('history', id="h%d" % len(hist_ids))
                 h.hist_type = draw(st.sampled_from(['shallow', 'deep']))
+                if not o.nested_history:
+                    # known finding F-C01-2 (one shared history set): excluded by construction -- no history below a
+                    # deep history's parent, no deep history above another history
+                    if any(a in deep_hist_parents for a in s.ancestors()):
+                        excluded[0] += 1
+                        continue
+                hist_parents.add(s)
+                if h.hist_type == 'deep':
+                    deep_hist_parents.add(s)
                 pc = s.proper_children()
                 if s.kind == 'parallel':
                     # default must name a legal configuration: every region (or descendants thereof)
@@ -238,7 +251,9 @@ def charts(draw, o=None, datamodel='lua'):
             tg = [t0.id]
             if o.multi_target:
                 others = [d for d in desc if lca_is_parallel(t0, d)]
-                if others and draw(st.booleans()):
+                if o.loose and draw(st.integers(0, 3)) == 3:
+                    tg.append(draw(st.sampled_from(desc)).id)
+                elif others and draw(st.booleans()):
                     tg.append(draw(st.sampled_from(others)).id)
             s.initial_attr = tg
             continue
@@ -289,7 +304,9 @@ def charts(draw, o=None, datamodel='lua'):
                 if ntg == 2 and not first.startswith('h'):
                     f = tmp.by_id[first]
                     others = [d.id for d in proper if lca_is_parallel(f, d)]
-                    if others:
+                    if o.loose and draw(st.booleans()):
+                        t.targets.append(draw(st.sampled_from(ids)))
+                    elif others:
                         t.targets.append(draw(st.sampled_from(others)))
             if o.internal and t.targets and draw(st.integers(0, 4)) == 4:
                 t.internal = True
